@@ -42,7 +42,7 @@ def _mk(family):
         user_ok = user_reachable and h.user_outcome == 'return'
         fail_ret = failing is not None and failing[1] == 'method_return_object' and user_ok
         expected_fault = (not valid) or fail_call or fail_ret or (user_reachable and not user_ok)
-        for name, ok, detail in ev_spec.check_call(c.trace, expected_fault, user_ok, user_reachable):
+        for name, ok, detail in ev_spec.check_call(c.trace, expected_fault, user_ok, user_reachable, failing):
             c.check(name, ok, detail=detail)
     return ob
 
